@@ -169,33 +169,45 @@ theorem fold_window_exact_unscaled (p : Params) (st : Stages) (c w : Rat) (s : I
   rw [fold_exact_value c w 0 1 p.lo p.hi s one_ne_zero (ne_of_gt hw) "LINEAR_EXACT" hfn, window_exact c w p.lo p.hi _ hw hr]
   cases st.invert <;> simp [invertOut]
 
-/- Full statement (PS3.3 C.11.2.1.2.1 allows every width >= 1):
-     theorem fold_window_linear ... (hw : 1 ≤ w) ... : folded p st s = ref p st s
-   It does not hold of the current source for w = 1 (open finding C06-linear-width-one: `apply_voi_window` divides by
-   w - 1; numpy returns NaN for the pixel equal to c - 0.5, and behind a negative slope the folded window of width 1
-   has lost its direction).  Proved: every width > 1 (`_partial` = exactly the width-1 case is missing); see
-   `counterexample_linear_width_one`. -/
-/-- **LINEAR window behind a rescale with any slope m != 0**, every width > 1 (it held only for m = 1 before
-the fix babe92f in /repo): the effective centre / width computed by the current source,
-((c - 1/2 - b) / m + 1/2, (w - 1) / m + 1), reproduce C.11.2.1.2.1 on the rescaled value exactly. -/
+/- Full statement (PS3.3 C.11.2.1.2.1 allows every width >= 1, and a rescale slope may be negative):
+     theorem fold_window_linear ... (hm : m ≠ 0) (hw : 1 ≤ w) ... : folded p st s = ref p st s
+   Since the fix of C06-linear-width-one in /repo (`apply_voi_window` has the step at c - 1/2 as its own branch) the
+   window function itself is right for every width >= 1 (`fold_window_linear_unscaled`, `fold_modlut_window_linear`: full
+   statements).  Behind a rescale the statement still fails in ONE region: width exactly 1 with a NEGATIVE slope - the
+   effective width (w - 1) / m + 1 is 1 again and the direction of the step is lost (open finding
+   C06-linear-width-one-negative-slope, `counterexample_linear_width_one_negative_slope`).  Proved: everything else
+   (`_partial` = exactly w = 1 and m < 0 is missing). -/
+/-- **LINEAR window behind a rescale with any slope m != 0** (it held only for m = 1 before the fix babe92f in
+/repo), every width >= 1 except width exactly 1 behind a negative slope: the effective centre / width computed by the
+current source, ((c - 1/2 - b) / m + 1/2, (w - 1) / m + 1), reproduce C.11.2.1.2.1 on the rescaled value exactly. -/
 theorem fold_window_linear_partial (p : Params) (st : Stages) (m b c w : Rat) (s : Int)
     (hp : p.modality = .rescale m b) (hv : p.voi = .window .linear c w)
-    (hm : m ≠ 0) (hw : 1 < w) (hr : p.lo < p.hi)
+    (hm : m ≠ 0) (hw : 1 ≤ w) (hunit : w = 1 → 0 < m) (hr : p.lo < p.hi)
     (h1 : st.rwvm = false) (h2 : st.modality = true) (h3 : st.voi = true) :
     folded p st s = ref p st s := by
   simp only [folded, build, ref, refModality, refVoi, applyEff, foldWindow, windowOut, WinFn.name, hp, hv, h1, h2, h3,
     beq_self_eq_true, Bool.false_eq_true, ↓reduceIte]
-  rw [fold_linear_value c w b m p.lo p.hi s hm (by linarith), window_linear c w p.lo p.hi _ hw hr]
-  cases st.invert <;> simp [invertOut]
+  rcases eq_or_lt_of_le hw with hw1 | hw1
+  · subst hw1
+    rw [fold_linear_value_unit c b m p.lo p.hi s (hunit rfl), window_linear c 1 p.lo p.hi _ (le_refl 1) hr]
+    cases st.invert <;> simp [invertOut]
+  · rw [fold_linear_value c w b m p.lo p.hi s hm (by linarith), window_linear c w p.lo p.hi _ hw hr]
+    cases st.invert <;> simp [invertOut]
 
-theorem fold_window_linear_unscaled_partial (p : Params) (st : Stages) (c w : Rat) (s : Int)
-    (hv : p.voi = .window .linear c w) (hw : 1 < w) (hr : p.lo < p.hi)
+/-- **LINEAR window without a rescale, every width >= 1** (full statement since the fix of C06-linear-width-one:
+width 1 is the step at c - 1/2). -/
+theorem fold_window_linear_unscaled (p : Params) (st : Stages) (c w : Rat) (s : Int)
+    (hv : p.voi = .window .linear c w) (hw : 1 ≤ w) (hr : p.lo < p.hi)
     (h1 : st.rwvm = false) (h2 : st.modality = false) (h3 : st.voi = true) :
     folded p st s = ref p st s := by
   simp only [folded, build, ref, refModality, refVoi, applyEff, foldWindow, windowOut, WinFn.name, hv, h1, h2, h3,
     beq_self_eq_true, Bool.false_eq_true, ↓reduceIte]
-  rw [fold_linear_value c w 0 1 p.lo p.hi s one_ne_zero (by linarith), window_linear c w p.lo p.hi _ hw hr]
-  cases st.invert <;> simp [invertOut]
+  rcases eq_or_lt_of_le hw with hw1 | hw1
+  · subst hw1
+    rw [fold_linear_value_unit c 0 1 p.lo p.hi s one_pos, window_linear c 1 p.lo p.hi _ (le_refl 1) hr]
+    cases st.invert <;> simp [invertOut]
+  · rw [fold_linear_value c w 0 1 p.lo p.hi s one_ne_zero (by linarith), window_linear c w p.lo p.hi _ hw hr]
+    cases st.invert <;> simp [invertOut]
 
 /-- SIGMOID window behind a rescale: the transform differs from the standard's only by how the argument of
 `exp` is written - the arguments are equal, so the symbolic values `lo + (hi - lo) / (1 + exp arg)` coincide -/
@@ -258,8 +270,8 @@ theorem fold_modlut_window_exact (p : Params) (st : Stages) (mfirst : Int) (mdat
     rw [window_exact c w p.lo p.hi _ hw hr]
     cases st.invert <;> simp [invertOut]
 
-theorem fold_modlut_window_linear_partial (p : Params) (st : Stages) (mfirst : Int) (mdata : List Nat) (c w : Rat) (s : Int)
-    (hp : p.modality = .lut mfirst mdata) (hv : p.voi = .window .linear c w) (hw : 1 < w) (hr : p.lo < p.hi)
+theorem fold_modlut_window_linear (p : Params) (st : Stages) (mfirst : Int) (mdata : List Nat) (c w : Rat) (s : Int)
+    (hp : p.modality = .lut mfirst mdata) (hv : p.voi = .window .linear c w) (hw : 1 ≤ w) (hr : p.lo < p.hi)
     (h1 : st.rwvm = false) (h2 : st.modality = true) (h3 : st.voi = true) :
     folded p st s = ref p st s := by
   simp only [folded, build, ref, refModality, refVoi, applyEff, hp, hv, h1, h2, h3, Bool.false_eq_true, ↓reduceIte]
@@ -521,7 +533,7 @@ LUT, stages only where parameters exist), every choice of stages, every stored v
 theorem folded_eq_ref (exp : Rat → Rat) (hexp : ∀ a, exp (-a) * exp a = 1) (hpos : ∀ a, 0 < exp a)
     (p : Params) (st : Stages) (s : Int) (wf : WellFormed p st) (e : Eff) (hb : build p st = .ok e) :
     Except.map (Out.eval exp) (folded p st s) = Except.map (Out.eval exp) (ref p st s) := by
-  obtain ⟨hr, hmp, hvp, hwl, hwe, hws, hsl, hvl, hml⟩ := wf
+  obtain ⟨hr, hmp, hvp, hwl, hus, hwe, hws, hsl, hvl, hml⟩ := wf
   cases h1 : st.rwvm with
   | true =>
     apply map_congr_of_eq
@@ -543,7 +555,7 @@ theorem folded_eq_ref (exp : Rat → Rat) (hexp : ∀ a, exp (-a) * exp a = 1) (
         | none => exact absurd hv (hvp h3)
         | window fn c w =>
           cases fn with
-          | linear => exact map_congr_of_eq _ (fold_window_linear_unscaled_partial p st c w s hv (hwl c w h3 hv) hr h1 h2 h3)
+          | linear => exact map_congr_of_eq _ (fold_window_linear_unscaled p st c w s hv (hwl c w h3 hv) hr h1 h2 h3)
           | exact => exact map_congr_of_eq _ (fold_window_exact_unscaled p st c w s hv (hwe c w h3 hv) hr h1 h2 h3)
           | sigmoid => exact fold_sigmoid_unscaled_eval exp hexp hpos p st c w s hv (hws c w h3 hv) h1 h2 h3
         | lut vfirst vdata =>
@@ -567,7 +579,7 @@ theorem folded_eq_ref (exp : Rat → Rat) (hexp : ∀ a, exp (-a) * exp a = 1) (
           | window fn c w =>
             have hm := hsl m b fn c w h2 hp h3 hv
             cases fn with
-            | linear => exact map_congr_of_eq _ (fold_window_linear_partial p st m b c w s hp hv hm (hwl c w h3 hv) hr h1 h2 h3)
+            | linear => exact map_congr_of_eq _ (fold_window_linear_partial p st m b c w s hp hv hm (hwl c w h3 hv) (fun hw1 => hus m b c h2 hp h3 (hw1 ▸ hv)) hr h1 h2 h3)
             | exact => exact map_congr_of_eq _ (fold_window_exact p st m b c w s hp hv hm (hwe c w h3 hv) hr h1 h2 h3)
             | sigmoid => exact fold_sigmoid_eval exp hexp hpos p st m b c w s hp hv hm (hws c w h3 hv) h1 h2 h3
           | lut vfirst vdata =>
@@ -590,7 +602,7 @@ theorem folded_eq_ref (exp : Rat → Rat) (hexp : ∀ a, exp (-a) * exp a = 1) (
           | none => exact absurd hv (hvp h3)
           | window fn c w =>
             cases fn with
-            | linear => exact map_congr_of_eq _ (fold_modlut_window_linear_partial p st mfirst mdata c w s hp hv (hwl c w h3 hv) hr h1 h2 h3)
+            | linear => exact map_congr_of_eq _ (fold_modlut_window_linear p st mfirst mdata c w s hp hv (hwl c w h3 hv) hr h1 h2 h3)
             | exact => exact map_congr_of_eq _ (fold_modlut_window_exact p st mfirst mdata c w s hp hv (hwe c w h3 hv) hr h1 h2 h3)
             | sigmoid => exact fold_modlut_sigmoid_eval exp hexp hpos p st mfirst mdata c w s hp hv h1 h2 h3
           | lut vfirst vdata =>
@@ -911,17 +923,24 @@ theorem pixels_by_frame_eq_frame {ρ μ ω β} (im : Meta ρ μ ω) (useRw useMo
     getPixelsByFrame im useRw useMod useVoi apply fs = fs.map (getFrame im useRw useMod useVoi apply) :=
   getWith_eq im useRw useMod useVoi apply n 0 fs h0 hfs h1 h2 h3
 
-/-- **Counterexample at width 1** (open finding C06-linear-width-one).  At w = 1 the window function as written
-divides by w - 1 = 0.  Over `Rat` (x / 0 = 0) the translated formula returns the lower output value for a pixel
-*above* the step, where the standard demands the upper one; numpy instead produces inf / NaN (NaN exactly at the
-step: the real-code witness stored 10, centre 10.5 is replayed by every run).  Either way the hypothesis `1 < w`
-of `fold_window_linear_partial` cannot be weakened to `1 ≤ w`. -/
-theorem counterexample_linear_width_one :
-    folded { modality := .none, voi := .window .linear (21/2) 1, rwvm := .none, imin := 0, imax := 255, lo := 0, hi := 1 }
-        ⟨false, false, true, false, false, false⟩ 11
-      ≠ ref { modality := .none, voi := .window .linear (21/2) 1, rwvm := .none, imin := 0, imax := 255, lo := 0, hi := 1 }
-        ⟨false, false, true, false, false, false⟩ 11 := by
+/-- **Counterexample at width 1 behind a negative slope** (open finding C06-linear-width-one-negative-slope).  Rescale
+-s, LINEAR window centre -19/2 width 1: the standard's step is at rescaled value -10, i.e. stored values >= 10 give the
+lower output value and stored 9 the upper one.  The folded window has effective centre 21/2 and effective width
+(1 - 1) / (-1) + 1 = 1 again - a rising step in the stored value: stored 9 gets the lower value (the real-code witness
+is replayed by every run).  So the hypothesis `w = 1 → 0 < m` of `fold_window_linear_partial` cannot be dropped. -/
+theorem counterexample_linear_width_one_negative_slope :
+    folded { modality := .rescale (-1) 0, voi := .window .linear (-19/2) 1, rwvm := .none, imin := 0, imax := 255, lo := 0, hi := 1 }
+        ⟨false, true, true, false, false, false⟩ 9
+      ≠ ref { modality := .rescale (-1) 0, voi := .window .linear (-19/2) 1, rwvm := .none, imin := 0, imax := 255, lo := 0, hi := 1 }
+        ⟨false, true, true, false, false, false⟩ 9 := by
   decide +kernel
+
+/-- ... and width 1 itself is no longer excluded: the former witness of C06-linear-width-one (centre 21/2, width 1,
+stored 10 on the step, 11 above it) now follows the standard -/
+example : folded { modality := .none, voi := .window .linear (21/2) 1, rwvm := .none, imin := 0, imax := 255, lo := 0, hi := 1 }
+        ⟨false, false, true, false, false, false⟩ 11 = .ok (.val 1) := by decide +kernel
+example : folded { modality := .none, voi := .window .linear (21/2) 1, rwvm := .none, imin := 0, imax := 255, lo := 0, hi := 1 }
+        ⟨false, false, true, false, false, false⟩ 10 = .ok (.val 0) := by decide +kernel
 
 /-! ## Tie: the hand-written model uses the expressions of the current source (bridges, `Proofs/PixelTie.lean`) -/
 
@@ -994,7 +1013,7 @@ def exStages : Stages := ⟨false, true, true, false, false, false⟩
 example : folded exWindow exStages 20 = .ok (.val (7/32)) ∧ ref exWindow exStages 20 = .ok (.val (7/32)) := by
   decide +kernel
 example : folded exWindow exStages 20 = ref exWindow exStages 20 :=
-  fold_window_linear_partial exWindow exStages 2 (-5) 40 17 20 rfl rfl (by decide) (by decide +kernel) (by decide +kernel) rfl rfl rfl
+  fold_window_linear_partial exWindow exStages 2 (-5) 40 17 20 rfl rfl (by decide) (by decide +kernel) (fun h => absurd h (by decide +kernel)) (by decide +kernel) rfl rfl rfl
 
 /-- rescale -2 s + 20 in front of a 4-entry VOI LUT starting at 3 (witness of adab703): stored 4..9 ->
 modality 12, 10, 8, 6, 4, 2 -> entries 3, 3, 3, 3, 1, 0 -/
@@ -1026,6 +1045,10 @@ example : WellFormed exWindow exStages where
   win_linear := by
     intro c w _ h
     have : w = 17 := by simp [exWindow] at h; exact h.2.symm
+    rw [this]; decide +kernel
+  unit_slope := by
+    intro m b c _ h _ _
+    have : m = 2 := by simp [exWindow] at h; exact h.1.symm
     rw [this]; decide +kernel
   win_exact := by intro c w _ h; simp [exWindow] at h
   win_sigmoid := by intro c w _ h; simp [exWindow] at h
